@@ -46,7 +46,8 @@ def build(tier, seed):
                     L, list(DTS), [list(p) for p in PLISTS], list(XIS), list(MDR)),
         'bounds': {'alphabet': [-1, 0, 2], 'max_len': L, 'dt': DTS, 'period_lists_in_dt': PLISTS, 'xi': XIS, 'min_dt_ratio': MDR},
         'required_classes': ['T<6dt', 'T>=6dt', 'T=0', 'container-list', 'container-tuple', 'container-int', 'object-after-edit', 'refined-f>1', 'unrefined-f=1',
-                             'xi=0-true-equals-pseudo', 'energy>0', 'object-descending-periods', 'object-min_dt_ratio-sequence'],
+                             'xi=0-true-equals-pseudo', 'energy>0', 'object-descending-periods', 'object-min_dt_ratio-sequence',
+                             'object-xi-sequence'],
         'assumptions': ['reference peaks from the 40-digit exact response (mcheck/refs/sdof_ref.py) with the tolerance of C01',
                         'object path (e): which integer refinement factor float rounding of dt/target lands on (f or f+1) and whether the '
                         'library interpolation holds the last value for f-1 extra sub-steps is not fixed by the statement: all are accepted'],
@@ -340,6 +341,46 @@ def run_case(case):
                                            'a fresh object asked once' % (meth, bad[0]), observed=g1, expected=g2)
                             except Exception as e:
                                 r.fail('e.object-sequence', sub, 'malformed: %s' % e)
+                # one object asked for several dampings in turn, the argument-free call (documented default 5 %) and the lazy
+                # read in between: each request is answered like a fresh object asked once with that damping
+                for meth in ('gen_response_spectrum', 'generate_response_spectrum'):
+                    for order in ((0.2, None, 0.0, 0.05, 0.7, None), (None, 0.7, 0.05, 0.2, 0.2, None)):
+                        def xwalk():
+                            s = eqsig.AccSignal(a, dt, response_times=np.array(periods))
+                            out = []
+                            for x_ in order:
+                                if x_ is None:
+                                    getattr(s, meth)()
+                                else:
+                                    getattr(s, meth)(xi=x_)
+                                out.append((np.array(s.s_d), np.array(s.s_v), np.array(s.s_a)))
+                            return out
+
+                        def xsingles():
+                            out = []
+                            for x_ in order:
+                                s = eqsig.AccSignal(a, dt, response_times=np.array(periods))
+                                if x_ is not None:
+                                    s.gen_response_spectrum(xi=x_)
+                                out.append((np.array(s.s_d), np.array(s.s_v), np.array(s.s_a)))
+                            return out
+                        sub = dict(base, method=meth, xi_sequence=['default' if x_ is None else x_ for x_ in order])
+                        ok1, g1 = r.call('e.object-xi-sequence', sub, xwalk)
+                        ok2, g2 = r.call('e.object-xi-sequence', sub, xsingles)
+                        if ok1 and ok2:
+                            r.n_cmp += 1
+                            r.cls('object-xi-sequence')
+                            try:
+                                bad = [k for k in range(len(order))
+                                       if not all(np.asarray(x).shape == np.asarray(y).shape and
+                                                  np.all(np.abs(np.asarray(x, dtype=float) - np.asarray(y, dtype=float)) <= 1e-9 * np.abs(y) + 1e-300)
+                                                  for x, y in zip(g1[k], g2[k]))]
+                                if bad:
+                                    r.fail('e.object-xi-sequence', sub, 'spectra after request %d of the sequence (%s(xi=%s)) on one object differ '
+                                           'from a fresh object asked once' % (bad[0] + 1, meth, sub['xi_sequence'][bad[0]]),
+                                           observed=g1[bad[0]], expected=g2[bad[0]])
+                            except Exception as e:
+                                r.fail('e.object-xi-sequence', sub, 'malformed: %s' % e)
     # ---- e (continued): the same object after its record has been replaced / edited: the spectra are those of the new record
     for plist in (PLISTS[1], PLISTS[5]):
         periods = np.array([float(fr(p) * fr(dts)) for p in plist])
